@@ -46,6 +46,9 @@ func NewParser(srcPath, dstPath string) (*Parser, error) {
 	}
 
 	dstStat, _ := os.Stat(dstPath)
+	if dstStat != nil && os.SameFile(srcStat, dstStat) {
+		return nil, logger.Errorf("%v: the output path must not be the input file", srcPath)
+	}
 	var parseErr error
 	cfg := &packages.Config{
 		Mode:       parserLoadMode,
